@@ -130,8 +130,7 @@ def run_names(_case=None):
     finally:
         c.cleanup()
 
-case = (['bin', '+', ['var', 'alpha'], ['num', 1.0]], ['Alpha_Rate + NOSUCHFUNCTION(1)'], 0, 1)
-bad = run(case)
+bad = run_names()
 print("FAIL: " + bad if bad else "PASS")
 sys.stdout.flush()
 os._exit(1 if bad else 0)
